@@ -84,7 +84,7 @@ ASSUMPTIONS = [
 TRUSTED = ["matplotlib Agg backend, lxml, protobuf runtime (used only to run the operations under test and to erase the date)"]
 REQUIRED_BUCKETS = ["traj:ks-unc-offcentre-queried", "problem-init:acceleration-unset", "problem-init:acceleration-set"] + ["drawn-light-on-incoming:" + d_ for d_ in
                     ("ALL", "RIGHT", "STRAIGHT", "LEFT", "LEFT_STRAIGHT", "STRAIGHT_RIGHT", "LEFT_RIGHT")] + ["dims:checked", "op:net_find", "op:pred_q", "op:state_q", "op:cycle_q", "op:shape_q", "op:interval_q", "op:sign_interp", "op:viz_util",
-                    "op:read_back", "op:write_x", "lanelet_q:merge_direct", "draw:reuse", "pre:translate", "pre:query", "pre:set_same_traj",
+                    "op:read_back", "op:write_x", "write_x:reused-scenario:pb", "write_x:reused-scenario:xml", "lanelet_q:merge_direct", "draw:reuse", "pre:translate", "pre:query", "pre:set_same_traj",
                     "pre:remove_readd", "pre:failed_add", "spec:areas", "spec:map_info", "spec:no-dynamic", "spec:id-0", "draw:speed-limit-sign-rendered", "draw-flag:draw_traffic_signs", "draw:signs", "op:reached_own", "traj:custom-full", "op:occ", "op:state", "op:occs", "op:find_pos", "op:light", "op:reached", "op:eq", "op:hash", "op:copy",
                     "op:deepcopy", "op:pickle", "op:draw", "op:write_xml", "op:write_pb", "op:occset",
                     "traj:custom-vvy", "traj:pm", "traj:ks", "pred:set", "shape:group",
@@ -557,7 +557,8 @@ def gen_new_op(r, spec, k, some_t, pts):
     if k == "write_x":
         return ["write_x", {"fmt": r.choice(["xml", "pb"]), "direct": r.random() < 0.4, "precision": r.choice([4, 2, 8]),
                             "check": r.random() < 0.3, "args": r.random() < 0.4, "location": r.random() < 0.3,
-                            "seq": r.choice([["full"], ["full", "scenario"], ["scenario", "full", "full"], ["full", "skip"]])}]
+                            "seq": r.choice([["full"], ["full", "scenario"], ["scenario", "full", "full"], ["full", "skip"],
+                                             ["scenario", "scenario"], ["full", "scenario", "scenario"]])}]
     if k == "scenario_id_q":
         return ["scenario_id_q"]
     if k == "lanelet_merge_direct":
@@ -1473,6 +1474,7 @@ def do_write_x(ctx, sc, pps, p):
             else:
                 w = CommonRoadFileWriter(sc, pps, file_format=FileFormat.XML if p["fmt"] == "xml" else FileFormat.PROTOBUF, **kw)
             out = []
+            seen = {}
             path = os.path.join(ctx.tmpdir(), f"x.{p['fmt']}")
             for how in p["seq"]:
                 if how == "full":
@@ -1482,6 +1484,14 @@ def do_write_x(ctx, sc, pps, p):
                 else:
                     w.write_scenario_to_file(path, OverwriteExistingFile.ALWAYS)
                 out.append(os.path.getsize(path) > 0)
+                if how != "skip":
+                    # ONE writer object exporting the (unchanged) scenario again: the export after the earlier write -- itself a
+                    # read-only operation -- must be the file the same entry point produced before (date aside)
+                    data = open(path, "rb").read()
+                    data = re.sub(rb'date="[^"]*"', b'date=""', data, count=1) if p["fmt"] == "xml" else _erase_pb_date(data)
+                    first = seen.setdefault(how, data)
+                    if first != data:
+                        _LAST.setdefault("write_x_diff", []).append(f"{p['fmt']}:{how}")
             return out
         finally:
             # the decimal precision is process-wide in the writers: put the default back for the oracle's own exports
@@ -2207,6 +2217,14 @@ def run_case(ctx, case, with_model=True, old_pb=False):
             res = call(run_op, ctx, sc, pps, op, twin)
         if res[0] == "err":
             ctx.tag("op-raises:" + op[0] + ":" + res[1])
+        for wd in _LAST.get("write_x_diff", []):
+            ctx.fail(f"C18/write_x/reused-writer/export-differs:{wd}", f"one writer object exporting the unchanged scenario again "
+                     f"({op[1]['seq']}) produced a different {wd} file than its first export through the same entry point",
+                     {"spec": spec, "ops": ops[:i + 1]})
+        if op[0] == "write_x" and len(op[1]["seq"]) > 1:
+            ctx.tag(f"write_x:reused:{op[1]['fmt']}:" + "-".join(op[1]["seq"]))
+            if "scenario" in op[1]["seq"][1:]:
+                ctx.tag(f"write_x:reused-scenario:{op[1]['fmt']}")
         _LAST["answer"] = res[1] if res[0] == "ok" else None
         mop, mode = model_op(op, P, spy, env)
         ans = res
@@ -2404,7 +2422,15 @@ def run(ctx):
             recipe = "unc"
         if i % 10 == 4:
             recipe = ["inter", ALL_DIRECTIONS[(i // 10) % len(ALL_DIRECTIONS)]]       # every direction in turn
-        run_case(ctx, gen_case(ctx, tiny=(i % 4 == 3 and recipe is None), allow_draw=(i % 5 == 0), recipe=recipe))
+        case = gen_case(ctx, tiny=(i % 4 == 3 and recipe is None), allow_draw=(i % 5 == 0), recipe=recipe)
+        if i % 20 == 2:
+            # directed: ONE writer object exporting several times, a scenario-only export after an earlier write (round-6 seed
+            # C18_13: the protobuf scenario-only entry point kept the message of the previous export)
+            j = i // 20
+            case["ops"].append(["write_x", {"fmt": "pb" if j % 2 == 0 else "xml", "direct": j % 4 >= 2, "precision": 4, "check": False,
+                                            "args": False, "location": False,
+                                            "seq": [["full", "scenario", "scenario"], ["scenario", "scenario"], ["full", "scenario"]][j % 3]}])
+        run_case(ctx, case)
 
 
 search = run
